@@ -50,6 +50,7 @@ pub fn draw_knobs(rng: &mut Rng) -> Knobs {
             1 => FmtShape::Twice,
             _ => FmtShape::Plain,
         },
+        nested_sibling: rng.coin(),
     }
 }
 
@@ -196,6 +197,7 @@ pub fn enumerate_value(value: &ValueSpec, stats: &mut Stats, mut f: impl FnMut(&
             Knobs { bufwriter: Some(8), ..Knobs::default() },
             Knobs { sync_each_write: true, ..Knobs::default() },
             Knobs { bufwriter: Some(3), sync_each_write: true, ..Knobs::default() },
+            Knobs { nested_sibling: true, ..Knobs::default() },
         ];
         if is_list {
             k.push(Knobs { pretty: true, ..Knobs::default() });
@@ -217,9 +219,15 @@ pub fn enumerate_value(value: &ValueSpec, stats: &mut Stats, mut f: impl FnMut(&
     n += 1;
 
     // formatter sink: every write_str index x {transient, sticky}, in each shape
-    for shape in [FmtShape::Plain, FmtShape::Framed, FmtShape::Twice] {
+    for (shape, sibling) in [
+        (FmtShape::Plain, false),
+        (FmtShape::Framed, false),
+        (FmtShape::Twice, false),
+        (FmtShape::Plain, true),
+    ] {
         let mut p = Plan::fault_free(value.clone());
         p.knobs.fmt_shape = shape;
+        p.knobs.nested_sibling = sibling;
         let calls = if shape == FmtShape::Plain {
             counts.fmt_calls
         } else {
@@ -227,7 +235,12 @@ pub fn enumerate_value(value: &ValueSpec, stats: &mut Stats, mut f: impl FnMut(&
             o.counts.fmt_calls
         };
         for k in 0..calls {
-            for d in [FDec::FailTransient, FDec::FailSticky] {
+            let kinds: &[FDec] = if sibling {
+                &[FDec::Reenter]
+            } else {
+                &[FDec::FailTransient, FDec::FailSticky, FDec::Reenter]
+            };
+            for d in kinds.iter().cloned() {
                 let mut q = p.clone();
                 q.fmt_sched = prefix(FDec::Accept, k, d);
                 exec(&q, stats, &mut f);
@@ -253,6 +266,7 @@ pub fn enumerate_value(value: &ValueSpec, stats: &mut Stats, mut f: impl FnMut(&
                 WDec::HardSticky,
                 WDec::Full,
                 WDec::Lost,
+                WDec::Reenter,
             ];
             if len >= 2 {
                 kinds.push(WDec::Short(1));
@@ -294,7 +308,7 @@ pub fn enumerate_value(value: &ValueSpec, stats: &mut Stats, mut f: impl FnMut(&
         }
         let calls = counts.read_calls.get(di).copied().unwrap_or(0);
         for k in 0..calls {
-            for r in [RDec::Eintr, RDec::Hard, RDec::Eof, RDec::Chunk(1)] {
+            for r in [RDec::Eintr, RDec::Hard, RDec::Eof, RDec::Chunk(1), RDec::Reenter] {
                 let mut q = Plan::fault_free(value.clone());
                 q.reads = vec![ReadPlan {
                     delivery: *d,
@@ -753,12 +767,13 @@ pub fn minimise_with(plan: &Plan, fails: &dyn Fn(&Plan) -> bool) -> (Plan, u64) 
             }
         }
         // knobs
-        for which in 0..4 {
+        for which in 0..5 {
             let mut c = best.clone();
             match which {
                 0 => c.knobs.bufwriter = None,
                 1 => c.knobs.sync_each_write = false,
                 2 => c.knobs.pretty = false,
+                3 => c.knobs.nested_sibling = false,
                 _ => c.knobs.fmt_shape = FmtShape::Plain,
             }
             progress |= attempt(c, &mut best, &mut tried);
